@@ -43,7 +43,12 @@ def _witness_job(args):
         return (w["name"], "skipped", "file missing")
     if src.count(w["old"]) != 1:
         return (w["name"], "skipped", "pattern occurs %d times" % src.count(w["old"]))
-    mrepo = repo.with_override(w["file"], src.replace(w["old"], w["new"]))
+    msrc = src.replace(w["old"], w["new"])
+    for o2, n2 in w.get("also", ()):      # further edits of the same file (e.g. the mirror-image line of a sibling)
+        if msrc.count(o2) != 1:
+            return (w["name"], "skipped", "secondary pattern occurs %d times" % msrc.count(o2))
+        msrc = msrc.replace(o2, n2)
+    mrepo = repo.with_override(w["file"], msrc)
     c = Check(pid, "thorough", quiet=True)
     run_rules(mod, mrepo, c, thorough=False)
     newv = [k for k in c.violation_keys() if k not in base_keys]
